@@ -45,7 +45,7 @@ def make_gen(ctx, config, rng, kind=None):
 
 def wl_commit(ctx, config):
     rng = ctx.rng
-    for it in range(ctx.n(1800, 40000)):
+    for it in ctx.iters(1800, 40000):
         H, Ho, lab, k = make_gen(ctx, config, rng)
         if Ho is None: continue
         b = pools.scalar(rng, 0.45); v = pools.u64(rng, 0.5)
@@ -84,7 +84,7 @@ def wl_one_sided(ctx, config):
     """tallies with one EMPTY side: they balance iff the other side alone sums to the point at infinity - possible with zero values and
     blinding factors summing to 0 mod n, or with non-zero values under a generator of known discrete log"""
     rng = ctx.rng
-    for it in range(ctx.n(40, 1000)):
+    for it in ctx.iters(40, 1000):
         k = rng.choice((1, 2, 2, 3, 5)); kind = it % 4
         h = rng.randrange(1, n); H = mulG(h) if kind >= 2 else zkp.generate(pools.rbytes(rng, 32))[1]
         go = ctx.call("generator_parse", zkp.gen_ser(H), config=config)
@@ -110,7 +110,7 @@ def wl_one_sided(ctx, config):
 
 def wl_tally(ctx, config):
     rng = ctx.rng
-    for it in range(ctx.n(260, 6000)):
+    for it in ctx.iters(260, 6000):
         nassets = rng.randrange(1, 5)
         assets = []
         for a in range(nassets):
@@ -184,7 +184,7 @@ def wl_tally(ctx, config):
 
 def wl_blind_sum(ctx, config):
     rng = ctx.rng
-    for it in range(ctx.n(400, 10000)):
+    for it in ctx.iters(400, 10000):
         k = rng.randrange(0, 12); npos = rng.randrange(0, k + 1)
         bl = [pools.scalar(rng, 0.3) % n for _ in range(k)]
         bad = it % 4 == 0 and k > 0
